@@ -16,6 +16,12 @@
       diagonal preconditioner (component 0 where `θ = a_ii`)                                        -> `c15_correction_defined`
     * "compute() returns nev": the sizes could be reset below `nev` and `nev` entries of shorter arrays were read (F18);
       `initialize()` now keeps `initial ≥ nev`, `check_convergence` requires `nev` pairs            -> `c15_sizes`, `c15_successful`
+    * "a second compute() on the same object": `compute_with_guess` used to reset the search space and `niter_` only, so the
+      Ritz pairs, flags and `info()` of the PREVIOUS call were handed out by a call with `maxit = 0` (F21), fed the restart of a
+      first iteration with a too wide initial space (F21b) and survived a throwing call (F21c).  Since /repo 6587027 the prologue
+      is `m_ritz_pairs = RitzPairs<Scalar>(); m_info = CompInfo::NotComputed; initialize_search_space(…); niter_ = 0;`
+      — every result member is reset — and a call on a used object IS the call on a fresh one, for every state, `maxit`,
+      initial space and kernel outcome                                       -> `c15_compute_resets`, `c15_recompute`, `c15_maxit0_not_computed`
   Not provable (rounding / convergence; oracle only): the strict inequality on the computed residual norm transfers to the
   true residual only up to rounding of the cached products (slack stated in harness/c15.cpp); orthonormality of the basis
   produced by the real `HouseholderQR` passes is a specification hypothesis here (`OrthSpec` in `c15_unit_orth_spec`); the real
@@ -70,16 +76,17 @@ theorem c15_cached_products_extend (hO : OrthKeepsLeft K) (s : St R M) (newv : L
 
 /-- **c15_cached_products.**  For every linear operator, every eigen-solver, orthogonaliser (that leaves the old columns
     alone), sort, correction function, dot, norm and comparison, every selection rule, tolerance, `maxit`, sizes and EVERY
-    initial space (orthonormal or not, dependent or not), on a solver without stale Ritz pairs: after `compute_with_guess`
-    the cached products are `A · basis` and every stored residue is the true residual `A x - θ x` of its Ritz pair. -/
+    initial space (orthonormal or not, dependent or not), on a solver object in ANY state `s` (fresh or left behind by any
+    history of earlier calls): after `compute_with_guess` the cached products are `A · basis` and every stored residue is the
+    true residual `A x - θ x` of its Ritz pair. -/
 theorem c15_cached_products (hL : Linear K A) (hO : OrthKeepsLeft K) (c : Cfg) (corr : List (Pair R M) → List M)
-    (guess : List M) (sel : Int) (maxit : Nat) (tol : R) (s : St R M) (hfresh : s.pairs = []) :
+    (guess : List M) (sel : Int) (maxit : Nat) (tol : R) (s : St R M) :
     let r := (computeWithGuess K c corr guess sel maxit tol s).1
     r.opBasis = (r.basis.take r.opBasis.length).map A ∧ ∀ p ∈ r.pairs, p.residue = A p.vector - p.value • p.vector := by
-  have h0 : Inv K A { initializeSearchSpace guess s with niter := 0, sizes := [] } := by
-    refine ⟨by simp [Cached, initializeSearchSpace], ?_, ?_⟩
-    · intro p hp; simp [initializeSearchSpace, hfresh] at hp
-    · intro p hp; simp [initializeSearchSpace, hfresh] at hp
+  have h0 : Inv K A (start guess) := by
+    refine ⟨by simp [Cached, start], ?_, ?_⟩
+    · intro p hp; simp [start] at hp
+    · intro p hp; simp [start] at hp
   have := loop_inv hL hO c corr sel tol maxit maxit _ h0
   exact ⟨this.1, this.2.2⟩
 
@@ -94,7 +101,7 @@ theorem c15_cached_products_matrix {n : Nat} (Am : Matrix (Fin n) (Fin n) R) (K 
   let L : (Fin n → R) →ₗ[R] (Fin n → R) :=
     { toFun := Am.mulVec, map_add' := Am.mulVec_add, map_smul' := fun a v => by simp [Matrix.mulVec_smul] }
   have hL : Linear K L := ⟨hz, hadd, hsub, hsmul, happ⟩
-  exact c15_cached_products K L hL hO c corr guess sel maxit tol construct rfl
+  exact c15_cached_products K L hL hO c corr guess sel maxit tol construct
 
 /-- **the headline clause.**  `Successful` ⇒ the convergence test was passed BY THE TRUE RESIDUALS: for every linear operator
     and all kernels as above, fresh solver: if `info() == Successful` then for each of the first `nev` stored pairs
@@ -106,9 +113,8 @@ theorem c15_successful_true_residuals (hL : Linear K A) (hO : OrthKeepsLeft K) (
     ∀ p ∈ (computeWithGuess K c corr guess sel maxit tol construct).1.pairs.take c.nev,
       K.lt (K.norm (A p.vector - p.value • p.vector)) tol = true := by
   intro p hp
-  have h1 := (c15_cached_products K A hL hO c corr guess sel maxit tol construct rfl).2 p (List.mem_of_mem_take hp)
-  have hp0 := loop_successful K c corr sel tol maxit maxit { initializeSearchSpace guess construct with niter := 0, sizes := [] }
-    (by simp [initializeSearchSpace, construct]) h
+  have h1 := (c15_cached_products K A hL hO c corr guess sel maxit tol construct).2 p (List.mem_of_mem_take hp)
+  have hp0 := loop_successful K c corr sel tol maxit maxit (start guess) (by simp [start]) h
   have h2 := (succPost_consequences K c tol _ hp0).1 p hp
   rw [← h1]; exact h2
 
@@ -118,17 +124,17 @@ end ring
 section anytype
 variable {σ ν : Type} (K : Kern σ ν)
 
-/-- **c15_successful.**  For ALL kernels and arbitrary scalar/vector types: if `compute_with_guess` (called with `info() ≠
-    Successful`, e.g. on a fresh object) ends with `info() == Successful`, then the search space holds at least `nev` Ritz
-    pairs, the test `‖residue‖ < tol` passed for each of the first `nev` of them, and `compute` returns `nev`. -/
+/-- **c15_successful.**  For ALL kernels and arbitrary scalar/vector types, a solver object in ANY state `s` (whatever `info()`
+    it reported before the call: the prologue resets it to `NotComputed`), every `maxit` (0 included): if `compute_with_guess`
+    ends with `info() == Successful`, then the search space holds at least `nev` Ritz pairs, the test `‖residue‖ < tol` of THIS
+    call passed for each of the first `nev` of them, and `compute` returns `nev`. -/
 theorem c15_successful (c : Cfg) (corr : List (Pair σ ν) → List ν) (guess : List ν) (sel : Int) (maxit : Nat) (tol : σ)
-    (s : St σ ν) (h0 : s.info ≠ .successful)
+    (s : St σ ν)
     (h : (computeWithGuess K c corr guess sel maxit tol s).1.info = .successful) :
     let r := computeWithGuess K c corr guess sel maxit tol s
     (∀ p ∈ r.1.pairs.take c.nev, K.lt (K.norm p.residue) tol = true) ∧
     r.2 = c.nev ∧ c.nev ≤ r.1.pairs.length ∧ (eigenvalues c r.1).length = c.nev ∧ (eigenvectors c r.1).length = c.nev := by
-  have hp := loop_successful K c corr sel tol maxit maxit { initializeSearchSpace guess s with niter := 0, sizes := [] }
-    (by simpa [initializeSearchSpace] using h0) h
+  have hp := loop_successful K c corr sel tol maxit maxit (start guess) (by simp [start]) h
   have := succPost_consequences K c tol _ hp
   refine ⟨this.1, this.2.1, this.2.2, ?_, ?_⟩
   · simp only [eigenvalues, List.length_map, List.length_take]
@@ -143,13 +149,15 @@ theorem c15_iterations (c : Cfg) (corr : List (Pair σ ν) → List ν) (guess :
     (s : St σ ν) (hm : 1 ≤ maxit) (hc : c.initSize ≤ c.maxSize) :
     let r := (computeWithGuess K c corr guess sel maxit tol s).1
     r.niter < maxit ∧ r.sizes.length = r.niter + 1 ∧ (∀ z ∈ r.sizes, z ≤ c.maxSize) ∧ r.basis.length ≤ c.maxSize := by
-  have h1 := loop_niter K c corr sel tol maxit maxit { initializeSearchSpace guess s with niter := 0, sizes := [] } (by simp) (by omega)
-  have h2 := loop_sizes K c corr sel tol maxit maxit { initializeSearchSpace guess s with niter := 0, sizes := [] } hc (by simp)
-  have h3 := loop_exit_size K c corr sel tol maxit maxit { initializeSearchSpace guess s with niter := 0, sizes := [] } hc (by omega) (by simp)
+  have h1 := loop_niter K c corr sel tol maxit maxit (start guess) (by simp [start]) (by omega)
+  have h2 := loop_sizes K c corr sel tol maxit maxit (start guess) hc (by simp [start])
+  have h3 := loop_exit_size K c corr sel tol maxit maxit (start guess) hc (by omega) (by simp [start])
   refine ⟨h1.1, ?_, h2, h3⟩
   have := h1.2.1
-  simp only [List.length_nil] at this
-  simp only [computeWithGuess]
+  have e1 : (start guess : St σ ν).sizes.length = 0 := rfl
+  have e2 : (start guess : St σ ν).niter = 0 := rfl
+  rw [e1, e2] at this
+  simp only [computeWithGuess_eq]
   omega
 
 /-- **c15_iterations, restart bookkeeping.**  If the kernels keep lengths (`LenSpec`: the orthogonaliser returns as many
@@ -158,13 +166,13 @@ theorem c15_iterations (c : Cfg) (corr : List (Pair σ ν) → List ν) (guess :
     EVERY Rayleigh–Ritz step — whatever the convergence tests and the numbers — sees a search space of size in
     `[initial_search_space_size, max_search_space_size]`: growth by `correction_size`, reset to `initial` by `restart`. -/
 theorem c15_iterations_bookkeeping (c : Cfg) (corr : List (Pair σ ν) → List ν) (guess : List ν)
-    (sel : Int) (hS : LenSpec K c corr sel) (maxit : Nat) (tol : σ) (s : St σ ν) (hfresh : s.pairs = []) (hc : c.initSize ≤ c.maxSize)
+    (sel : Int) (hS : LenSpec K c corr sel) (maxit : Nat) (tol : σ) (s : St σ ν) (hc : c.initSize ≤ c.maxSize)
     (hg1 : c.initSize ≤ guess.length) (hg2 : guess.length ≤ c.maxSize) :
     ∀ z ∈ (computeWithGuess K c corr guess sel maxit tol s).1.sizes, c.initSize ≤ z ∧ z ≤ c.maxSize := by
-  apply loop_sizes_between K c corr sel hS tol maxit maxit _ hc
-  · refine ⟨⟨by simp [initializeSearchSpace], by simp [initializeSearchSpace, hfresh]⟩, by simpa [initializeSearchSpace] using hg1, ?_⟩
-    intro h; simp only [initializeSearchSpace] at h; omega
-  · intro z hz; simp at hz
+  apply loop_sizes_between K c corr sel hS tol maxit maxit (start guess) hc
+  · refine ⟨⟨by simp [start], by simp [start]⟩, by simpa [start] using hg1, ?_⟩
+    intro h; simp only [start] at h; omega
+  · intro z hz; simp [start] at hz
 
 end anytype
 
@@ -233,7 +241,7 @@ theorem c15_order (K : Kern F ν) (hK : K.argsort = @Exec.argsortList F _ _ _ _ 
     (fun ps => (ps.map (fun p => p.value)).Pairwise (fun x y =>
       (sel = 0 → |y| ≤ |x|) ∧ (sel = 3 → y ≤ x) ∧ (sel = 4 → |x| ≤ |y|) ∧ (sel = 7 → x ≤ y)))
     c corr sel tol (fun s' => sortPairs_ordered Fn K hK sel hsel s') maxit maxit
-    { initializeSearchSpace guess s with niter := 0, sizes := [] } (by simp) (by omega)
+    (start guess) (by simp [start]) (by omega)
 
 /-- the translated `argsort` meets the specifications assumed of the sort kernel elsewhere: it repeats no index
     (`ArgsortSpec` in `c15_unit_orth_spec`) and `RitzPairs::sort` keeps the number of pairs (`LenSpec.sort` in
@@ -267,23 +275,23 @@ section gram
 variable {R M : Type} [CommRing R] [AddCommGroup M] [Module R M] (K : Kern R M) (A : M →ₗ[R] M)
 
 /-- **c15_unit_orth.**  For every symmetric bilinear form `ip` (the Euclidean dot product in the application), all kernels
-    as in `c15_cached_products`, `maxit ≥ 1`, fresh solver: IF the search-space basis at exit is orthonormal w.r.t. `ip`
+    as in `c15_cached_products`, `maxit ≥ 1`, solver object in any state: IF the search-space basis at exit is orthonormal w.r.t. `ip`
     and the small eigenvectors have one coefficient per basis column, THEN the Gram matrix of the stored Ritz vectors equals
     the Gram matrix of the small eigenvectors: `⟨x_p, x_q⟩ = y_p · y_q`.  So orthonormal small eigenvectors (the
     specification of `SelfAdjointEigenSolver`) give `‖x‖ = 1` and mutual orthogonality.  The hypothesis on the basis is
     exactly what a non-orthonormal user space violates (counter-model below). -/
 theorem c15_unit_orth (ip : M → M → R) (hip : IsSymBilin ip) (hL : Linear K A) (hO : OrthKeepsLeft K)
     (c : Cfg) (corr : List (Pair R M) → List M) (guess : List M) (sel : Int) (maxit : Nat) (tol : R) (s : St R M)
-    (hfresh : s.pairs = []) (hm : 1 ≤ maxit) :
+    (hm : 1 ≤ maxit) :
     let r := (computeWithGuess K c corr guess sel maxit tol s).1
     ON ip r.basis → (∀ p ∈ r.pairs, p.small.length = r.basis.length) →
     ∀ p ∈ r.pairs, ∀ q ∈ r.pairs, ip p.vector q.vector = sdot p.small q.small := by
   intro r hON hlen p hp q hq
-  have h0 : Inv K A { initializeSearchSpace guess s with niter := 0, sizes := [] } := by
-    refine ⟨by simp [Cached, initializeSearchSpace], ?_, ?_⟩
-    · intro p hp; simp [initializeSearchSpace, hfresh] at hp
-    · intro p hp; simp [initializeSearchSpace, hfresh] at hp
-  have hI := loop_invFull hL hO c corr sel tol maxit maxit _ h0 (by simp) (by omega)
+  have h0 : Inv K A (start guess) := by
+    refine ⟨by simp [Cached, start], ?_, ?_⟩
+    · intro p hp; simp [start] at hp
+    · intro p hp; simp [start] at hp
+  have hI := loop_invFull hL hO c corr sel tol maxit maxit _ h0 (by simp [start]) (by omega)
   have hp' := hI.2.1 p hp
   have hq' := hI.2.1 q hq
   rw [hp', hq']
@@ -304,15 +312,15 @@ theorem c15_unit_orth_corollary (ip : M → M → R) (p q : Pair R M)
 theorem c15_unit_orth_spec (ip : M → M → R) (hip : IsSymBilin ip) (hL : Linear K A) (hO : OrthKeepsLeft K)
     (hQ : OrthSpec ip K) (hE : EigSpec K) (hS : ArgsortSpec K)
     (c : Cfg) (corr : List (Pair R M) → List M) (guess : List M) (sel : Int) (maxit : Nat) (tol : R) (s : St R M)
-    (hfresh : s.pairs = []) (hm : 1 ≤ maxit) (hG : ON ip guess) :
+    (hm : 1 ≤ maxit) (hG : ON ip guess) :
     let r := (computeWithGuess K c corr guess sel maxit tol s).1
     ON ip r.basis ∧ r.pairs.Pairwise (fun p q => ip p.vector q.vector = 0) ∧ ∀ p ∈ r.pairs, ip p.vector p.vector = 1 := by
-  have h0 : InvON ip K A { initializeSearchSpace guess s with niter := 0, sizes := [] } := by
-    refine ⟨⟨by simp [Cached, initializeSearchSpace], ?_, ?_⟩, hG, ?_⟩
-    · intro p hp; simp [initializeSearchSpace, hfresh] at hp
-    · intro p hp; simp [initializeSearchSpace, hfresh] at hp
-    · simp [PairsON, initializeSearchSpace, hfresh]
-  have hI := loop_invFullON ip hip hL hO hQ hE hS c corr sel tol maxit maxit _ h0 (by simp) (by omega)
+  have h0 : InvON ip K A (start guess) := by
+    refine ⟨⟨by simp [Cached, start], ?_, ?_⟩, hG, ?_⟩
+    · intro p hp; simp [start] at hp
+    · intro p hp; simp [start] at hp
+    · simp [PairsON, start]
+  have hI := loop_invFullON ip hip hL hO hQ hE hS c corr sel tol maxit maxit _ h0 (by simp [start]) (by omega)
   exact ⟨hI.2.1, hI.2.2.1, hI.2.2.2⟩
 
 end gram
@@ -512,27 +520,31 @@ theorem c15_members_owning :
 
 set_option maxRecDepth 8000 in
 open Gen.JDMembers in
-/-- **what a second `compute` resets.**  Full clause: "`compute_with_guess` begins by resetting (or fully overwriting) every result
-    member".  That is FALSE of the code as it is: the statements before the loop reset the search space and `niter_` only (finding F21,
-    `c15_recompute_maxit0_stale`).  Proved here, by decision over the regenerated statement table `Gen.JDMembers.flow`:
+/-- **what a second `compute` resets** — the full clause: "`compute_with_guess` begins by resetting every result member", true of the code
+    since /repo 6587027 (before it the prologue was `initialize_search_space(…); niter_ = 0;` only: findings F21, F21b, F21c).  Proved by
+    decision over the regenerated tables `Gen.JDMembers.flow` / `members` / `special_members`:
     (1) the body of `compute_with_guess` is exactly this statement sequence (nesting depth, kind, target, text);
-    (2) the statements before the `for` are `m_search_space.initialize_search_space(initial_space); niter_ = 0;`;
+    (2) the statements before the `for`, all at nesting depth 0 (unconditional), are, in this order,
+        `m_ritz_pairs = RitzPairs<Scalar>(); m_info = CompInfo::NotComputed; m_search_space.initialize_search_space(initial_space); niter_ = 0;`;
     (3) `initialize_search_space` assigns, unconditionally and as a whole, EVERY data member of `SearchSpace`;
     (4) the data members of `JDSymEigsBase` are the configuration (operator reference, `nev`, the three sizes) and the four result members
-        `niter_`, `m_ritz_pairs`, `m_search_space`, `m_info`; of these the prologue names `m_search_space` and `niter_` — `m_ritz_pairs`
-        and `m_info` are NOT reset before the loop;
-    (5) they are overwritten by the first trip round the loop: its statements up to the first `break` are the restart test,
-        `update_operator_basis_product`, `compute_eigen_pairs`; `compute_eigen_pairs` and `check_convergence` together assign, unconditionally
-        and as a whole, EVERY data member of `RitzPairs` (`m_root_converged` is then filled entry by entry for all `j < norms.size()`);
-    (6) every `break` of the loop is directly preceded by an assignment to `m_info`; the only call / assignment statement made ON
-        `m_ritz_pairs` is `m_ritz_pairs.sort(selection)` inside the loop (`compute_eigen_pairs` / `check_convergence` are the initialisers
-        of the two declarations pinned in (1)) — nothing clears it before the loop — and the only statement that READS it before
-        `compute_eigen_pairs` is the `restart` under `if (do_restart)` (pinned in (1)).
-    With the model theorem `c15_recompute` (same control flow, all kernels): for `maxit ≥ 1` and an initial space of at most `max` columns a
-    second call leaves the object a fresh one would be left in. -/
-theorem c15_compute_resets_partial :
+        `niter_`, `m_ritz_pairs`, `m_search_space`, `m_info`; the prologue names EVERY ONE of them (none is left out), and
+        `compute_with_guess` assigns no other member (the configuration is not touched);
+    (5) `RitzPairs<Scalar>()` is the empty object: the only constructor `RitzPairs` declares is `RitzPairs() = default`, no data member of
+        `RitzPairs` has a default member initialiser, and it declares no assignment operator (the assignment in (2) is the implicit
+        member-wise one) — with (3) of `c15_members_owning` (the members are dynamic-size `Eigen::Matrix` / `Eigen::Array`) all five
+        arrays have size 0 after the assignment: no Ritz pair, no flag;
+    (6) inside the loop `compute_eigen_pairs` and `check_convergence` together assign, unconditionally and as a whole, EVERY data member of
+        `RitzPairs` (`m_root_converged` is then filled entry by entry for all `j < norms.size()`);
+    (7) every `break` of the loop is directly preceded by an assignment to `m_info`; the statements made ON `m_ritz_pairs` are the reset at
+        depth 0 and `m_ritz_pairs.sort(selection)` inside the loop.
+    With the model theorem `c15_recompute` (same statement order, all kernels): a call on a used object leaves the object a fresh one would
+    be left in — for every `maxit`, initial space and kernel outcome. -/
+theorem c15_compute_resets :
     (flow.filter (fun r => r.fn = "JDSymEigsBase::compute_with_guess" ∧ r.kind ≠ "signature")).map (fun r => (r.depth, r.kind, r.target, r.text)) =
-      [(0, "call", "m_search_space.initialize_search_space", "initial_space"),
+      [(0, "assign", "m_ritz_pairs", "RitzPairs<Scalar>()"),
+       (0, "assign", "m_info", "CompInfo::NotComputed"),
+       (0, "call", "m_search_space.initialize_search_space", "initial_space"),
        (0, "assign", "niter_", "0"),
        (0, "for", "", "niter_ = 0; niter_ < maxit; niter_++"),
        (1, "decl", "do_restart", "bool := (m_search_space.size() > m_max_search_space_size)"),
@@ -557,8 +569,9 @@ theorem c15_compute_resets_partial :
        (1, "call", "m_search_space.extend_basis", "corr_vect"),
        (0, "return", "", "(m_ritz_pairs.converged_eigenvalues()).template cast<Index>().head((std::min)(m_number_eigenvalues, m_ritz_pairs.converged_eigenvalues().size())).sum()")] ∧
     ((flow.filter (fun r => r.fn = "JDSymEigsBase::compute_with_guess" ∧ r.kind ≠ "signature")).takeWhile (fun r => r.kind ≠ "for")).map
-        (fun r => (r.kind, r.target, r.text)) =
-      [("call", "m_search_space.initialize_search_space", "initial_space"), ("assign", "niter_", "0")] ∧
+        (fun r => (r.depth, r.kind, r.target, r.text, r.root)) =
+      [(0, "assign", "m_ritz_pairs", "RitzPairs<Scalar>()", "m_ritz_pairs"), (0, "assign", "m_info", "CompInfo::NotComputed", "m_info"),
+       (0, "call", "m_search_space.initialize_search_space", "initial_space", "m_search_space"), (0, "assign", "niter_", "0", "niter_")] ∧
     (flow.filter (fun r => r.fn = "SearchSpace::initialize_search_space" ∧ r.kind = "assign" ∧ r.depth = 0)).map (fun r => r.target) =
       (members.filter (fun m => m.cls = "SearchSpace")).map (fun m => m.name) ∧
     (members.filter (fun m => m.cls = "JDSymEigsBase")).map (fun m => m.name) =
@@ -566,114 +579,98 @@ theorem c15_compute_resets_partial :
        "m_ritz_pairs", "m_search_space", "m_info"] ∧
     (["niter_", "m_ritz_pairs", "m_search_space", "m_info"].filter (fun m =>
         ((flow.filter (fun r => r.fn = "JDSymEigsBase::compute_with_guess" ∧ r.kind ≠ "signature")).takeWhile (fun r => r.kind ≠ "for")).all
-          (fun r => r.root ≠ m))) = ["m_ritz_pairs", "m_info"] ∧
+          (fun r => r.root ≠ m))) = [] ∧
+    (∀ r ∈ flow, r.fn = "JDSymEigsBase::compute_with_guess" → r.kind = "assign" → r.root ∈ ["m_ritz_pairs", "m_info", "niter_"]) ∧
+    special_members.filter (fun r => r.1 = "RitzPairs") = [("RitzPairs", "RitzPairs", "void ()", "default")] ∧
+    (∀ m ∈ members, m.cls = "RitzPairs" → m.init = "") ∧
     (flow.filter (fun r => (r.fn = "RitzPairs::compute_eigen_pairs" ∨ r.fn = "RitzPairs::check_convergence") ∧ r.kind = "assign" ∧ r.depth = 0)).map
         (fun r => r.target) = (members.filter (fun m => m.cls = "RitzPairs")).map (fun m => m.name) ∧
     (flow.filter (fun r => r.fn = "RitzPairs::check_convergence" ∧ (r.kind = "for" ∨ r.target = "m_root_converged[j]"))).map
         (fun r => (r.depth, r.kind, r.target, r.text)) =
       [(0, "for", "", "Index j = 0; j < norms.size(); j++"), (1, "assign", "m_root_converged[j]", "(norms[j] < tol)")] ∧
     (flow.filter (fun r => r.fn = "JDSymEigsBase::compute_with_guess" ∧ r.root = "m_ritz_pairs")).map (fun r => (r.depth, r.target)) =
-      [(1, "m_ritz_pairs.sort")] ∧
+      [(0, "m_ritz_pairs"), (1, "m_ritz_pairs.sort")] ∧
     breaksAfterInfo (flow.filter (fun r => r.fn = "JDSymEigsBase::compute_with_guess")) = true := by
-  refine ⟨by decide, by decide, by decide, by decide, by decide, by decide, by decide, by decide, by decide⟩
+  refine ⟨by decide, by decide, by decide, by decide, by decide, by decide, by decide, by decide, by decide, by decide, by decide, by decide⟩
 
 /-! ### object reuse: every history of calls on ONE solver object -/
 section reuse
 variable {σ ν : Type} (K : Kern σ ν)
 
-/-- **c15_recompute.**  For ALL kernels and EVERY state `s` an earlier history of calls (successful, not converging, with other
-    rules / tolerances / initial spaces, …) can have left in the object: a call `compute_with_guess(guess, sel, maxit, tol)` with
-    `maxit ≥ 1`, an initial space of at most `max_search_space_size` columns (no restart in the first trip) and a first small
-    eigenproblem that `SelfAdjointEigenSolver` solves leaves EXACTLY the object, and returns exactly the value, that the same call
-    produces on a freshly constructed solver: search space, cached products, Ritz pairs, flags, `num_iterations()`, `info()`.
-    Hence `eigenvalues()` / `eigenvectors()` and every theorem of this file stated for a fresh object hold after any history. -/
+/-- **c15_recompute.**  For ALL kernels, EVERY state `s` an earlier history of calls (successful, not converging, ended by
+    `NumericalIssue`, with other rules / tolerances / initial spaces, …) can have left in the object, EVERY `maxit` (0 included),
+    EVERY initial space (also one wider than `max_search_space_size`, which restarts in the first trip) and every outcome of the
+    small eigenproblems: a call `compute_with_guess(guess, sel, maxit, tol)` leaves EXACTLY the object, and returns exactly the
+    value, that the same call produces on a freshly constructed solver: search space, cached products, Ritz pairs, flags,
+    `num_iterations()`, `info()`.  Hence `eigenvalues()` / `eigenvectors()` and every theorem of this file hold after any
+    history.  (Before /repo 6587027 this needed `maxit ≥ 1`, at most `max` columns and a first small eigenproblem that
+    succeeds; the exceptions were findings F21, F21b and the stale flags after `NumericalIssue`.) -/
 theorem c15_recompute (c : Cfg) (corr : List (Pair σ ν) → List ν) (guess : List ν) (sel : Int) (maxit : Nat) (tol : σ)
-    (s : St σ ν) (hm : 1 ≤ maxit) (hg : guess.length ≤ c.maxSize)
-    (hE : firstEigOk K (initializeSearchSpace guess construct) = true) :
-    computeWithGuess K c corr guess sel maxit tol s = computeWithGuess K c corr guess sel maxit tol construct := by
-  have h := loop_forgets K c corr sel tol maxit maxit (initializeSearchSpace guess construct) s.pairs s.conv s.info
-    (by simp only [initializeSearchSpace]; omega) (by simp [initializeSearchSpace, construct]) (by omega) hE
-  have e1 : ({ initializeSearchSpace guess s with niter := 0, sizes := [] } : St σ ν) =
-      ({ initializeSearchSpace guess (construct : St σ ν) with pairs := s.pairs, conv := s.conv, info := s.info } : St σ ν) := rfl
-  have e2 : ({ initializeSearchSpace guess (construct : St σ ν) with niter := 0, sizes := [] } : St σ ν) =
-      initializeSearchSpace guess construct := rfl
-  simp only [computeWithGuess, e1, e2, h]
+    (s : St σ ν) :
+    computeWithGuess K c corr guess sel maxit tol s = computeWithGuess K c corr guess sel maxit tol construct :=
+  computeWithGuess_forgets K c corr guess sel maxit tol s construct
 
-/-- the one exception, stated exactly: if the first small eigenproblem of the new call FAILS, the call ends at once with
-    `NumericalIssue` and everything is as on a fresh object except `m_root_converged`, which `check_convergence` never got to
-    overwrite: the flags — and with them the return value of `compute` — are those of the PREVIOUS call. -/
-theorem c15_recompute_numerical_issue (c : Cfg) (corr : List (Pair σ ν) → List ν) (guess : List ν) (sel : Int) (maxit : Nat) (tol : σ)
-    (s : St σ ν) (hm : 1 ≤ maxit) (hg : guess.length ≤ c.maxSize)
-    (hE : firstEigOk K (initializeSearchSpace guess construct) = false) :
-    (computeWithGuess K c corr guess sel maxit tol s).1 =
-      { (computeWithGuess K c corr guess sel maxit tol construct).1 with conv := s.conv } ∧
-    (computeWithGuess K c corr guess sel maxit tol s).1.info = .numericalIssue ∧
-    (computeWithGuess K c corr guess sel maxit tol s).2 = returnValue c s := by
-  have h := loop_forgets_numerical_issue K c corr sel tol maxit maxit (initializeSearchSpace guess construct) s.pairs s.conv s.info
-    (by simp only [initializeSearchSpace]; omega) (by omega) hE
-  have e1 : ({ initializeSearchSpace guess s with niter := 0, sizes := [] } : St σ ν) =
-      ({ initializeSearchSpace guess (construct : St σ ν) with pairs := s.pairs, conv := s.conv, info := s.info } : St σ ν) := rfl
-  have e2 : ({ initializeSearchSpace guess (construct : St σ ν) with niter := 0, sizes := [] } : St σ ν) =
-      initializeSearchSpace guess construct := rfl
-  simp only [computeWithGuess, e1, e2, h.1]
-  exact ⟨trivial, h.2, rfl⟩
+/-- the same for the accessors: what `info()`, `num_iterations()`, `eigenvalues()`, `eigenvectors()` return after the call does not
+    depend on the object's past -/
+theorem c15_recompute_accessors (c : Cfg) (corr : List (Pair σ ν) → List ν) (guess : List ν) (sel : Int) (maxit : Nat) (tol : σ)
+    (s : St σ ν) :
+    let r := (computeWithGuess K c corr guess sel maxit tol s).1
+    let f := (computeWithGuess K c corr guess sel maxit tol (construct : St σ ν)).1
+    r.info = f.info ∧ r.niter = f.niter ∧ eigenvalues c r = eigenvalues c f ∧ eigenvectors c r = eigenvectors c f := by
+  rw [c15_recompute K c corr guess sel maxit tol s]
+  exact ⟨rfl, rfl, rfl, rfl⟩
 
-/-- **the blind side of the reset (finding F21), stated exactly.**  `compute_with_guess` resets the search space and `niter_` and
-    nothing else; with `maxit = 0` the loop body never runs, so on a used object the Ritz pairs, the flags and `info()` are those
-    of the PREVIOUS call: `info()` can be `Successful`, `compute` returns the previous count and `eigenvalues()` / `eigenvectors()`
-    hand out the previous results (selected by the previous rule, converged to the previous tolerance), while a fresh object
-    reports `NotComputed`, 0 and nothing. -/
-theorem c15_recompute_maxit0_stale (c : Cfg) (corr : List (Pair σ ν) → List ν) (guess : List ν) (sel : Int) (tol : σ) (s : St σ ν) :
-    computeWithGuess K c corr guess sel 0 tol s = ({ s with basis := guess, opBasis := [], niter := 0, sizes := [] }, returnValue c s) ∧
-    (computeWithGuess K c corr guess sel 0 tol s).1.info = s.info ∧
-    eigenvalues c (computeWithGuess K c corr guess sel 0 tol s).1 = eigenvalues c s ∧
-    eigenvectors c (computeWithGuess K c corr guess sel 0 tol s).1 = eigenvectors c s ∧
-    (computeWithGuess K c corr guess sel 0 tol (construct : St σ ν)).1.info = .notComputed ∧
-    (computeWithGuess K c corr guess sel 0 tol (construct : St σ ν)).2 = 0 ∧
-    eigenvalues c (computeWithGuess K c corr guess sel 0 tol (construct : St σ ν)).1 = [] :=
-  ⟨rfl, rfl, rfl, rfl, rfl, by simp [computeWithGuess, loop, returnValue, initializeSearchSpace, construct],
-   by simp [computeWithGuess, loop, eigenvalues, initializeSearchSpace, construct]⟩
+/-- **`maxit = 0` on ANY object** (the former blind side of the reset, finding F21): the loop body never runs, and whatever the object
+    held — a `Successful` result of an earlier call included — it now reports `NotComputed`, `compute` returns 0,
+    `num_iterations()` is 0, `eigenvalues()` / `eigenvectors()` are empty, no Ritz pair and no flag is stored, and the search
+    space holds the new initial space with no cached product. -/
+theorem c15_maxit0_not_computed (c : Cfg) (corr : List (Pair σ ν) → List ν) (guess : List ν) (sel : Int) (tol : σ) (s : St σ ν) :
+    let r := computeWithGuess K c corr guess sel 0 tol s
+    r.1.info = .notComputed ∧ r.2 = 0 ∧ r.1.niter = 0 ∧ eigenvalues c r.1 = [] ∧ eigenvectors c r.1 = [] ∧
+    r.1.pairs = [] ∧ r.1.conv = [] ∧ r.1.basis = guess ∧ r.1.opBasis = [] := by
+  simp only [computeWithGuess_eq, loop_zero]
+  simp [start, returnValue, eigenvalues, eigenvectors]
 
-/-- **c15_successful after ANY history.**  The hypothesis `info() ≠ Successful` before the call (`c15_successful`) is needed only for
-    `maxit = 0`: for `maxit ≥ 1` and an initial space of at most `max` columns, whatever the object held before, `Successful` means the
-    test `‖residue‖ < tol` of THIS call passed for each of the first `nev` pairs of THIS call, at least `nev` pairs exist and
-    `compute` returns `nev`. -/
+/-- **the status is this call's own**: after `compute_with_guess` with `maxit ≥ 1` on ANY object `info()` is one of `Successful`,
+    `NotConverging`, `NumericalIssue` — never `NotComputed` — and with `maxit = 0` it is `NotComputed`: `info()` never carries over
+    from an earlier call. -/
+theorem c15_info_of_this_call (c : Cfg) (corr : List (Pair σ ν) → List ν) (guess : List ν) (sel : Int) (maxit : Nat) (tol : σ)
+    (s : St σ ν) :
+    (maxit = 0 → (computeWithGuess K c corr guess sel maxit tol s).1.info = .notComputed) ∧
+    (1 ≤ maxit → (computeWithGuess K c corr guess sel maxit tol s).1.info ≠ .notComputed) := by
+  refine ⟨?_, ?_⟩
+  · rintro rfl; exact (c15_maxit0_not_computed K c corr guess sel tol s).1
+  · intro hm
+    rw [computeWithGuess_eq]
+    exact loop_info_written K c corr sel tol maxit maxit (start guess) (by simp [start]) (by omega)
+
+/-- **c15_successful after ANY history** (the same statement as `c15_successful`, which since the repair needs no hypothesis on the
+    object's state; kept under this name as the clause "a reused object"): whatever the object held before, every `maxit`, every
+    initial space: `Successful` means the test `‖residue‖ < tol` of THIS call passed for each of the first `nev` pairs of THIS call,
+    at least `nev` pairs exist and `compute` returns `nev`. -/
 theorem c15_successful_reused (c : Cfg) (corr : List (Pair σ ν) → List ν) (guess : List ν) (sel : Int) (maxit : Nat) (tol : σ)
-    (s : St σ ν) (hm : 1 ≤ maxit) (hg : guess.length ≤ c.maxSize)
+    (s : St σ ν)
     (h : (computeWithGuess K c corr guess sel maxit tol s).1.info = .successful) :
     let r := computeWithGuess K c corr guess sel maxit tol s
     (∀ p ∈ r.1.pairs.take c.nev, K.lt (K.norm p.residue) tol = true) ∧
-    r.2 = c.nev ∧ c.nev ≤ r.1.pairs.length ∧ (eigenvalues c r.1).length = c.nev ∧ (eigenvectors c r.1).length = c.nev := by
-  cases hE : firstEigOk K (initializeSearchSpace guess construct) with
-  | false =>
-    have := (c15_recompute_numerical_issue K c corr guess sel maxit tol s hm hg hE).2.1
-    rw [this] at h; cases h
-  | true =>
-    have e := c15_recompute K c corr guess sel maxit tol s hm hg hE
-    rw [e] at h ⊢
-    exact c15_successful K c corr guess sel maxit tol construct (by simp [construct]) h
+    r.2 = c.nev ∧ c.nev ≤ r.1.pairs.length ∧ (eigenvalues c r.1).length = c.nev ∧ (eigenvectors c r.1).length = c.nev :=
+  c15_successful K c corr guess sel maxit tol s h
 
 end reuse
 
 section reuse_ring
 variable {R M : Type} [CommRing R] [AddCommGroup M] [Module R M] (K : Kern R M) (A : M →ₗ[R] M)
 
-/-- **the headline clause after ANY history**: for every linear operator, all kernels, every state `s` of a used object, `maxit ≥ 1`
-    and an initial space of at most `max` columns: `info() == Successful` ⇒ `‖A x - θ x‖ < tol` for each of the first `nev`
-    pairs `eigenvalues()` / `eigenvectors()` return, with THIS call's `tol`. -/
+/-- **the headline clause after ANY history**: for every linear operator, all kernels, every state `s` of a used object, every
+    `maxit` and every initial space: `info() == Successful` ⇒ `‖A x - θ x‖ < tol` for each of the first `nev` pairs
+    `eigenvalues()` / `eigenvectors()` return, with THIS call's `tol`. -/
 theorem c15_successful_true_residuals_reused (hL : Linear K A) (hO : OrthKeepsLeft K) (c : Cfg) (corr : List (Pair R M) → List M)
-    (guess : List M) (sel : Int) (maxit : Nat) (tol : R) (s : St R M) (hm : 1 ≤ maxit) (hg : guess.length ≤ c.maxSize)
+    (guess : List M) (sel : Int) (maxit : Nat) (tol : R) (s : St R M)
     (h : (computeWithGuess K c corr guess sel maxit tol s).1.info = .successful) :
     ∀ p ∈ (computeWithGuess K c corr guess sel maxit tol s).1.pairs.take c.nev,
       K.lt (K.norm (A p.vector - p.value • p.vector)) tol = true := by
-  cases hE : firstEigOk K (initializeSearchSpace guess construct) with
-  | false =>
-    have := (c15_recompute_numerical_issue K c corr guess sel maxit tol s hm hg hE).2.1
-    rw [this] at h; cases h
-  | true =>
-    have e := c15_recompute K c corr guess sel maxit tol s hm hg hE
-    rw [e] at h ⊢
-    exact c15_successful_true_residuals K A hL hO c corr guess sel maxit tol h
+  rw [c15_recompute K c corr guess sel maxit tol s] at h ⊢
+  exact c15_successful_true_residuals K A hL hO c corr guess sel maxit tol h
 
 end reuse_ring
 
@@ -810,20 +807,32 @@ example (a : ℤ) : OrthKeepsLeft (K4 a) ∧ OrthBlockSpec (fun x y : ℤ => x *
       | [], _ => simp [ON]
       | [x], _ => simp [ON]
 
-/-- hypotheses of `c15_recompute` are satisfiable, and the history matters for `maxit = 0` only: the used object `sUsed` (the state
-    after `compute_with_guess([1], rule 7, maxit 5, tol 1)` with the operator `3·`: `Successful`, eigenvalue 3) is called again
-    with tolerance 0, under which nothing converges.  With `maxit = 1` it reports `NotConverging` and returns 0, as a fresh object
-    does; with `maxit = 0` it still reports `Successful`, returns 1 and hands out the pair of the previous call (F21). -/
+/-- object reuse on a concrete history (the former witness of F21): the used object `sUsed` — the state after
+    `compute_with_guess([1], rule 7, maxit 5, tol 1)` with the operator `3·`: `Successful`, returned 1, eigenvalue 3 — is called again
+    with tolerance 0, under which nothing converges.  With `maxit = 1` it reports `NotConverging` and returns 0; with `maxit = 0` it
+    reports `NotComputed`, returns 0 and hands out NO eigenvalue (it used to report `Successful`, return 1 and hand out the pair of
+    the previous call) — in both cases exactly what a fresh object does. -/
 def sUsed : St ℤ ℤ := (computeWithGuess (K1 3) cfg1 (fun _ => [1]) [1] 7 5 1 construct).1
 
 example :
-    firstEigOk (K1 3) (initializeSearchSpace [1] construct) = true ∧ sUsed.info = .successful ∧
+    sUsed.info = .successful ∧ eigenvalues cfg1 sUsed = [3] ∧ returnValue cfg1 sUsed = 1 ∧
     (computeWithGuess (K1 3) cfg1 (fun _ => [1]) [1] 7 1 0 sUsed).1.info = .notConverging ∧
     (computeWithGuess (K1 3) cfg1 (fun _ => [1]) [1] 7 1 0 sUsed).2 = 0 ∧
-    (computeWithGuess (K1 3) cfg1 (fun _ => [1]) [1] 7 0 0 sUsed).1.info = .successful ∧
-    (computeWithGuess (K1 3) cfg1 (fun _ => [1]) [1] 7 0 0 sUsed).2 = 1 ∧
-    eigenvalues cfg1 (computeWithGuess (K1 3) cfg1 (fun _ => [1]) [1] 7 0 0 sUsed).1 = [3] ∧
-    (computeWithGuess (K1 3) cfg1 (fun _ => [1]) [1] 7 0 0 construct).1.info = .notComputed := by
+    (computeWithGuess (K1 3) cfg1 (fun _ => [1]) [1] 7 0 0 sUsed).1.info = .notComputed ∧
+    (computeWithGuess (K1 3) cfg1 (fun _ => [1]) [1] 7 0 0 sUsed).2 = 0 ∧
+    eigenvalues cfg1 (computeWithGuess (K1 3) cfg1 (fun _ => [1]) [1] 7 0 0 sUsed).1 = [] ∧
+    (computeWithGuess (K1 3) cfg1 (fun _ => [1]) [1] 7 0 0 construct).1.info = .notComputed ∧
+    (computeWithGuess (K1 3) cfg1 (fun _ => [1]) [1] 7 0 0 construct).2 = 0 := by
+  decide
+
+/-- why the two reset statements are needed (the loop itself does not forget): entered with the state of the USED object and no
+    iteration allowed — what the prologue `initialize_search_space(…); niter_ = 0;` alone amounted to — the loop hands the stale
+    status and pair through; entered in the state the repaired prologue produces (`C15L.start`) it does not -/
+example :
+    (loop (K1 3) cfg1 (fun _ => [1]) 7 0 0 0 { initializeSearchSpace [1] sUsed with niter := 0, sizes := [] }).info = .successful ∧
+    eigenvalues cfg1 (loop (K1 3) cfg1 (fun _ => [1]) 7 0 0 0 { initializeSearchSpace [1] sUsed with niter := 0, sizes := [] }) = [3] ∧
+    (loop (K1 3) cfg1 (fun _ => [1]) 7 0 0 0 (start [1])).info = .notComputed ∧
+    eigenvalues cfg1 (loop (K1 3) cfg1 (fun _ => [1]) 7 0 0 0 (start [1])) = [] := by
   decide
 
 end C15
